@@ -5,6 +5,8 @@ import math
 import numpy as np
 from hypothesis import strategies as st
 
+from .core import sampled_from  # noqa: E402
+
 from . import sphere as S
 
 SIZE_CLASSES = [(10.0, "<=10deg"), (30.0, "<=30deg"), (65.0, "<=65deg"), (90.0, "<=90deg")]
@@ -56,17 +58,17 @@ def size_class(vs):
 
 @st.composite
 def centre(draw):
-    how = draw(st.sampled_from(["any", "any", "any", "npole", "spole", "antimeridian", "prime", "nearpole", "equator"]))
+    how = draw(sampled_from(["any", "any", "any", "npole", "spole", "antimeridian", "prime", "nearpole", "equator"]))
     if how == "npole":
         return (0.0, 90.0), how
     if how == "spole":
         return (0.0, -90.0), how
     if how == "antimeridian":
-        return (draw(st.sampled_from([180.0, -180.0, 179.5, -179.7])), draw(st.floats(-80, 80))), how
+        return (draw(sampled_from([180.0, -180.0, 179.5, -179.7])), draw(st.floats(-80, 80))), how
     if how == "prime":
-        return (draw(st.sampled_from([0.0, 0.3, -0.2])), draw(st.floats(-80, 80))), how
+        return (draw(sampled_from([0.0, 0.3, -0.2])), draw(st.floats(-80, 80))), how
     if how == "nearpole":
-        return (draw(st.floats(-180, 180)), draw(st.sampled_from([1, -1])) * draw(st.floats(75, 89.5))), how
+        return (draw(st.floats(-180, 180)), draw(sampled_from([1, -1])) * draw(st.floats(75, 89.5))), how
     if how == "equator":
         return (draw(st.floats(-180, 180)), 0.0), how
     z = draw(st.floats(-1, 1))
@@ -86,9 +88,9 @@ def convex_face(draw, max_class=3, min_corners=3, max_corners=8, tiny=False):
     r = math.radians(draw(st.floats(rmax * 0.25, rmax)))
     if tiny and draw(st.integers(0, 5)) == 0:
         # high-resolution cells: a few metres to a kilometre across
-        r = math.radians(draw(st.sampled_from([1e-4, 3e-4, 1e-3, 1e-2])))
+        r = math.radians(draw(sampled_from([1e-4, 3e-4, 1e-3, 1e-2])))
     k = draw(st.integers(min_corners, max_corners))
-    shape = draw(st.sampled_from(["circle", "circle", "hull"]))
+    shape = draw(sampled_from(["circle", "circle", "hull"]))
     vs = None
     if shape == "hull":
         R = math.tan(r)
